@@ -72,17 +72,20 @@ pub trait H {
     fn touch(&mut self) -> u64 {
         7
     }
+    /// a borrowed return configured with returns(): the value lives in the shared call pattern
+    fn bor(&self) -> &ValA;
 }
 
 fn new_original() -> Unimock {
     let u = Unimock::new((
         HMock::req_a.each_call(matching!(_)).answers(&|u, v| u.make_ref(ValA::new(v))),
         HMock::req_b.each_call(matching!(_)).answers(&|u, v| u.make_ref(ValB::new(v))),
+        HMock::bor.each_call(matching!()).returns(ValA::new(4242)),
     ));
     // verification is not what this harness is about: both clauses are used once up front (through a short-lived
     // clone, whose chain takes the two values with it) so that the original's teardown has nothing to report
     let c = u.clone();
-    let _ = (H::req_a(&c, 0).0, H::req_b(&c, 0).0);
+    let _ = (H::req_a(&c, 0).0, H::req_b(&c, 0).0, H::bor(&c).0);
     drop(c);
     u
 }
@@ -110,6 +113,7 @@ enum Op {
     Live,
     Help(u8, u64),
     Touch,
+    Nvid,
 }
 
 fn parse_op(s: &str) -> Op {
@@ -120,6 +124,7 @@ fn parse_op(s: &str) -> Op {
         "l" => Op::Live,
         "h" => Op::Help(p[1].parse().unwrap(), p[2].parse().unwrap()),
         "t" => Op::Touch,
+        "n" => Op::Nvid,
         _ => panic!("bad op {s}"),
     }
 }
@@ -150,7 +155,7 @@ fn shared_phase(u: &Unimock, ops: &[Op], out: &mut impl Write) -> usize {
                 writeln!(out, "[{}] live={}", show_all(&held), live()).unwrap();
             }
             Op::Live => writeln!(out, "[{}] live={}", show_all(&held), live()).unwrap(),
-            Op::Mut(..) | Op::Touch => break,
+            Op::Mut(..) | Op::Touch | Op::Nvid => break,
         }
         k += 1;
     }
@@ -185,6 +190,12 @@ fn session(u: &mut Unimock, ops: &[Op], out: &mut impl Write) {
                 let r = H::touch(u);
                 writeln!(out, "[touch{r}] live={}", live()).unwrap();
                 k += 1;
+            } else if let Op::Nvid = ops[k] {
+                // the builder method takes the instance by value (only legal on the original): a late call, after values were lent
+                let taken = std::mem::replace(u, Unimock::new(()));
+                *u = taken.no_verify_in_drop();
+                writeln!(out, "[nvid] live={}", live()).unwrap();
+                k += 1;
             }
         }
     }
@@ -193,11 +204,11 @@ fn session(u: &mut Unimock, ops: &[Op], out: &mut impl Write) {
 fn run_seq(t: &mut std::str::SplitWhitespace, out: &mut impl Write) {
     let n: usize = t.next().unwrap().parse().unwrap();
     let mut insts: Vec<Unimock> = vec![];
-    let mut unwinding: Vec<bool> = vec![];
+    let mut unwinding: Vec<u8> = vec![];      // how the instance finally goes: 0 dropped, 1 dropped while unwinding, 2 verify()
     for _ in 0..n {
         let kind = t.next().unwrap();
-        unwinding.push(kind == "O" || kind == "C");
-        let kind = kind.to_lowercase();
+        unwinding.push(if kind == "O" || kind == "C" { 1 } else if kind == "v" { 2 } else { 0 });
+        let kind = if kind == "v" { "o".to_string() } else { kind.to_lowercase() };
         let kind = kind.as_str();
         let nops: usize = t.next().unwrap().parse().unwrap();
         let ops: Vec<Op> = (0..nops).map(|_| parse_op(t.next().unwrap())).collect();
@@ -210,14 +221,20 @@ fn run_seq(t: &mut std::str::SplitWhitespace, out: &mut impl Write) {
     }
     writeln!(out, "end live={}", live()).unwrap();
     while let Some(u) = insts.pop() {
-        if unwinding.pop().unwrap() {
-            // the instance goes out of scope because of a panic in the code under test: its Drop runs during unwinding
-            let _ = std::panic::catch_unwind(std::panic::AssertUnwindSafe(move || {
-                let _owned = u;
-                panic!("code under test failed");
-            }));
-        } else {
-            drop(u);
+        match unwinding.pop().unwrap() {
+            1 => {
+                // the instance goes out of scope because of a panic in the code under test: its Drop runs during unwinding
+                let _ = std::panic::catch_unwind(std::panic::AssertUnwindSafe(move || {
+                    let _owned = u;
+                    panic!("code under test failed");
+                }));
+            }
+            2 => {
+                if std::panic::catch_unwind(std::panic::AssertUnwindSafe(move || u.verify())).is_err() {
+                    writeln!(out, "verify panicked").unwrap();
+                }
+            }
+            _ => drop(u),
         }
         writeln!(out, "dropped live={}", live()).unwrap();
     }
